@@ -277,6 +277,117 @@ def coerceLitN (s : Schema) : Nat → Vars → TypeRef → Value → Option PyVa
 def coerceLiteral (s : Schema) (vars : Vars) (t : TypeRef) (v : Value) : Option PyVal :=
   coerceLitN s 8 vars t v
 
+/-! ### input coercion of runtime values (`coerce_input_value`) and CoerceVariableValues
+
+Used by the driver only: the executors and the theorems take *coerced* variable values; here the
+raw variable values of a request are coerced independently of the implementation, so that a
+defect of `get_variable_values` shows as wrong resolver arguments against the specification. -/
+
+/-- `coerce_int` / `coerce_float` / `coerce_string` / `coerce_boolean` / `coerce_id` -/
+def scalarValue (nm : Name) : PyVal → Option PyVal
+  | .int i =>
+    if nm == "Int" then (if inRange i then some (.int i) else none)
+    else if nm == "Float" then (if -twoPow53 ≤ i && i ≤ twoPow53 then some (.flt (2 * i)) else none)
+    else if nm == "ID" then some (.str (decimal i))
+    else none
+  | .flt h =>
+    if nm == "Int" then (if h % 2 == 0 && inRange (h / 2) then some (.int (h / 2)) else none)
+    else if nm == "Float" then some (.flt h)
+    else if nm == "ID" then (if h % 2 == 0 then some (.str (decimal (h / 2))) else none)
+    else none
+  | .str s => if nm == "String" || nm == "ID" then some (.str s) else none
+  | .bool b => if nm == "Boolean" then some (.bool b) else none
+  | _ => none
+
+/-- assemble an input object from coerced provided fields (absent: default or omitted) -/
+def assembleVal (dflt : TypeRef → Value → Option PyVal) (res : List (Name × Option PyVal)) :
+    List ArgDef → Option (List (Name × PyVal))
+  | [] => some []
+  | d :: ds =>
+    let here : Option (Option (Name × PyVal)) :=
+      match res.find? (fun p => p.1 == d.name) with
+      | none =>
+        if d.required then none
+        else match d.default with
+          | none => some none
+          | some lit => match dflt d.type lit with
+            | some v => some (some (d.name, v))
+            | none => none
+      | some (_, some v) => some (some (d.name, v))
+      | some (_, none) => none
+    match here, assembleVal dflt res ds with
+    | some (some kv), some rest => some (kv :: rest)
+    | some none, some rest => some rest
+    | _, _ => none
+
+mutual
+def coerceValCore (s : Schema) (dflt : TypeRef → Value → Option PyVal) : TypeRef → PyVal → Option PyVal
+  | t, .null => if t.nonNull then none else some .null
+  | .list t' _, .list xs => (coerceValItems s dflt t' xs).map .list
+  | .named _ _, .list _ => none
+  | t, .dict kvs =>
+    let (k, n) := unwrapLists t
+    match s.lookup n with
+    | some (.input _ defs) =>
+      if kvs.any (fun p => !(defs.any (fun d => d.name == p.1))) then none
+      else
+        match assembleVal dflt (coerceValFields s dflt defs kvs) defs with
+        | none => none
+        | some out =>
+          if s.isOneOf n &&
+              !(kvs.length == 1 && out.length == 1 &&
+                out.all (fun p => match p.2 with | .null => false | _ => true)) then none
+          else some (wrapN k (.dict out))
+    | _ => none
+  | t, v =>
+    let (k, n) := unwrapLists t
+    match s.lookup n with
+    | some (.scalar nm) => (scalarValue nm v).map (wrapN k)
+    | some (.enum _ vals) =>
+      match v with
+      | .str cs => if vals.any (fun e => cpsOf e == cs) then some (wrapN k (.str cs)) else none
+      | _ => none
+    | _ => none
+
+def coerceValItems (s : Schema) (dflt : TypeRef → Value → Option PyVal) (t : TypeRef) :
+    List PyVal → Option (List PyVal)
+  | [] => some []
+  | v :: vs =>
+    match coerceValCore s dflt t v, coerceValItems s dflt t vs with
+    | some h, some r => some (h :: r)
+    | _, _ => none
+
+def coerceValFields (s : Schema) (dflt : TypeRef → Value → Option PyVal) (defs : List ArgDef) :
+    List (Name × PyVal) → List (Name × Option PyVal)
+  | [] => []
+  | (n, v) :: fs =>
+    let r : Option PyVal :=
+      match defs.find? (fun d => d.name == n) with
+      | none => none
+      | some d => coerceValCore s dflt d.type v
+    (n, r) :: coerceValFields s dflt defs fs
+end
+
+/-- `coerce_input_value(value, type)` -/
+def coerceInputValue (s : Schema) (t : TypeRef) (v : PyVal) : Option PyVal :=
+  coerceValCore s (coerceLitN s 8 []) t v
+
+/-- CoerceVariableValues(schema, operation, variableValues): `none` = request error -/
+def coerceVariableValues (s : Schema) : List VarDef → Vars → Option Vars
+  | [], _ => some []
+  | vd :: rest, raw =>
+    let here : Option (Option (Name × PyVal)) :=
+      match raw.lookup vd.name with
+      | none =>
+        match vd.default with
+        | some lit => (coerceLiteral s [] vd.type lit).map (fun v => some (vd.name, v))
+        | none => if vd.type.nonNull then none else some none
+      | some v => (coerceInputValue s vd.type v).map (fun c => some (vd.name, c))
+    match here, coerceVariableValues s rest raw with
+    | some (some kv), some r => some (kv :: r)
+    | some none, some r => some r
+    | _, _ => none
+
 def ops : Ops := { serialize := serialize, coerceLiteral := coerceLiteral }
 
 end Concrete
